@@ -762,6 +762,10 @@ fn oracle(case: &Case, tr: &Trace) -> Result<(), String> {
     if !missing.is_empty() || !stray.is_empty() {
         return Err(format!("frames on the link differ from the datagrams sent: missing {:?} stray {:?}", missing.first(), stray.first()));
     }
+    // a datagram for the limited-broadcast address goes to the broadcast MAC
+    if let Some(f) = tr.frames.iter().find(|f| f.dst.0 == BCAST && f.to != -2) {
+        return Err(format!("datagram for 255.255.255.255:{} from machine {} was addressed to MAC {} instead of the broadcast MAC", f.dst.1, f.from, f.to));
+    }
     // an answer goes back to the interface the datagram came from
     for f in tr.frames.iter().filter(|f| f.plen == RPY.len() && f.phash == rh) {
         // (a datagram that took the loopback path came from the machine's own interface)
